@@ -181,7 +181,8 @@ func c18value(stmts []ast.Stmt, tgt, src string, s *shape, fail func(string)) {
 			return
 		}
 		recv, name, call, ok := rules.SelectorCall(u.X)
-		if !ok || name != "DeepEqual" || recv != tgt || len(call.Args) != 1 || rules.ExprText(call.Args[0]) != src {
+		// the element may be handed over by address (value_type_in_container; pointer-ness is C01's value-elements-by-address)
+		if !ok || name != "DeepEqual" || recv != tgt || len(call.Args) != 1 || strings.TrimPrefix(rules.ExprText(call.Args[0]), "&") != src {
 			fail(fmt.Sprintf("struct-like comparison is %s, expected %s.DeepEqual(%s)", rules.ExprText(u.X), tgt, src))
 		}
 	case s.isContainer():
@@ -201,6 +202,13 @@ func c18value(stmts []ast.Stmt, tgt, src string, s *shape, fail func(string)) {
 			return
 		}
 		idx, val := rules.ExprText(rs.Key), rules.ExprText(rs.Value)
+		if s.Cat == "Map" && s.Key != nil && s.Key.isStructLike() {
+			// struct-like keys are pointers in Go: `src[k]` finds a key only by identity, so two maps holding the same
+			// value never compare equal. The key has to be searched by value:
+			//   found := false; for sk, e := range src { if !k.DeepEqual(sk) { continue }; found = true; <compare v, e>; break }; if !found { return false }
+			c18structKeyedMap(rs, idx, val, src, s, fail)
+			return
+		}
 		if len(rs.Body.List) < 2 {
 			fail("loop body does not fetch and compare the other side's element")
 			return
@@ -264,6 +272,80 @@ func c18value(stmts []ast.Stmt, tgt, src string, s *shape, fail func(string)) {
 				fail(fmt.Sprintf("scalar compared with `%s`, expected `%s`", cond, want))
 			}
 		}
+	}
+}
+
+// c18structKeyedMap checks the by-value key search described above.
+func c18structKeyedMap(rs *ast.RangeStmt, idx, val, src string, s *shape, fail func(string)) {
+	var flag string
+	var inner *ast.RangeStmt
+	var after []ast.Stmt
+	for i, st := range rs.Body.List {
+		switch x := st.(type) {
+		case *ast.AssignStmt:
+			if inner == nil && len(x.Lhs) == 1 && len(x.Rhs) == 1 && rules.ExprText(x.Rhs[0]) == "false" {
+				flag = rules.ExprText(x.Lhs[0])
+			}
+			if ix, ok := x.Rhs[0].(*ast.IndexExpr); ok && rules.ExprText(ix.X) == src {
+				fail(fmt.Sprintf("the other map is indexed with the struct-like key (%s[%s]): keys are pointers, so the lookup is by identity and two maps with equal keys and values are reported different", src, rules.ExprText(ix.Index)))
+				return
+			}
+		case *ast.RangeStmt:
+			if inner == nil && rules.ExprText(x.X) == src {
+				inner = x
+				after = rs.Body.List[i+1:]
+			}
+		}
+	}
+	if inner == nil || flag == "" {
+		fail("a map with struct-like keys is not compared by searching the other map for an equal key")
+		return
+	}
+	sk, elemSrc := rules.ExprText(inner.Key), rules.ExprText(inner.Value)
+	body := inner.Body.List
+	// if !k.DeepEqual(sk) { continue }
+	okGuard := false
+	if len(body) > 0 {
+		if is, ok := body[0].(*ast.IfStmt); ok && len(is.Body.List) == 1 {
+			if br, ok := is.Body.List[0].(*ast.BranchStmt); ok && br.Tok == token.CONTINUE {
+				if u, ok := is.Cond.(*ast.UnaryExpr); ok && u.Op == token.NOT {
+					recv, name, call, ok := rules.SelectorCall(u.X)
+					if ok && name == "DeepEqual" && len(call.Args) == 1 {
+						a := rules.ExprText(call.Args[0])
+						okGuard = recv == idx && a == sk || recv == sk && a == idx
+					}
+				}
+			}
+		}
+	}
+	if !okGuard {
+		fail("the key search does not skip entries whose key differs by DeepEqual")
+		return
+	}
+	body = body[1:]
+	// flag = true ... compare ... break
+	if len(body) < 2 {
+		fail("the key search does not compare the value of the matching entry")
+		return
+	}
+	as, ok := body[0].(*ast.AssignStmt)
+	if !ok || rules.ExprText(as.Lhs[0]) != flag || rules.ExprText(as.Rhs[0]) != "true" {
+		fail("a matching key is not recorded as found")
+	}
+	br, ok := body[len(body)-1].(*ast.BranchStmt)
+	if !ok || br.Tok != token.BREAK {
+		fail("the key search goes on after a match")
+	}
+	c18value(body[1:len(body)-1], val, elemSrc, s.Val, fail)
+	// if !found { return false }
+	okAfter := false
+	for _, st := range after {
+		if is, ok := st.(*ast.IfStmt); ok && rules.ExprText(is.Cond) == "!"+flag && blockReturnsFalse(is.Body) {
+			okAfter = true
+		}
+	}
+	if !okAfter {
+		fail("a key that has no equal in the other map does not make the maps different")
 	}
 }
 
